@@ -579,7 +579,9 @@ def build_scene(spec: dict, apply: bool = True, material_arrays: dict | None = N
     oc, arrays, params, config, info = fdtdx.place_objects(object_list=objects, config=config, constraints=constraints, key=key)
 
     if mats["mode"] == "random":
-        ra = random_material_arrays(mats, tuple(spec["shape"]), np_dtype)
+        # config.symmetry keeps the upper half of every symmetric axis: random arrays are drawn for the reduced domain
+        red_shape = tuple(n // 2 if sy != 0 else n for n, sy in zip(spec["shape"], spec.get("symmetry", (0, 0, 0))))
+        ra = random_material_arrays(mats, red_shape, np_dtype)
         arrays = overwrite_materials(arrays, ra)
     if material_arrays is not None:
         arrays = overwrite_materials(arrays, material_arrays)
